@@ -20,6 +20,9 @@ pub fn add(v: &mut Vec<sut::Cfg>) {
     toy_cfg!(v, U24, U16, "qt", add_ctr32, add_ctr64);
     toy_cfg!(v, U64, U4, "qt", add_ctr32, add_ctr64, add_ctr128);
     toy_cfg!(v, U255, U3, "qt");
+    // unusual parallel widths
+    toy_cfg!(v, U8, U6, "qt", add_ctr32, add_ctr64);
+    toy_cfg!(v, U16, U7, "qt", add_ctr32, add_ctr64, add_ctr128, add_belt);
     // real ciphers needed by the oracle self-test of every run ('o'); part of the thorough set
     real_cfg!(v, aes::Aes128, "Aes128", "qot", add_ctr32, add_ctr64, add_ctr128, add_belt);
     real_cfg!(v, belt_block::BeltBlock, "BeltBlock", "ot", add_ctr32, add_ctr64, add_ctr128, add_belt);
